@@ -2,13 +2,11 @@
 // Copyright RIME Developers
 // Distributed under the BSD License
 //
-#include <filesystem>
 #include <rime/resource.h>
 #include <rime/service.h>
 #include <rime/config/config_compiler.h>
 #include <rime/config/config_types.h>
 #include <rime/config/plugins.h>
-#include <rime/verif_deploy_hooks.h>
 
 namespace rime {
 
@@ -28,24 +26,9 @@ bool SaveOutputPlugin::ReviewCompileOutput(ConfigCompiler* compiler,
 bool SaveOutputPlugin::ReviewLinkOutput(ConfigCompiler* compiler,
                                         an<ConfigResource> resource) {
   auto file_path = resource_resolver_->ResolvePath(resource->resource_id);
-  // write the compiled config under a temporary name in the staging directory,
-  // then move it into place: an interrupted build must not leave a truncated
-  // file (which still carries valid __build_info) under the final name.
-  path temp_path(file_path);
-  temp_path += ".tmp";
-  if (!resource->data->SaveToFile(temp_path)) {
-    return false;
-  }
-  RIME_VERIF_CRASHPOINT("SaveOutputPlugin:written");
-  std::error_code ec;
-  std::filesystem::rename(temp_path, file_path, ec);
-  RIME_VERIF_CRASHPOINT("SaveOutputPlugin:renamed");
-  if (ec) {
-    LOG(ERROR) << "failed to save compiled config '" << file_path
-               << "': " << ec.message();
-    return false;
-  }
-  return true;
+  // an interrupted build must not leave a truncated compiled config (which
+  // still carries valid __build_info) under the final name.
+  return resource->data->SaveToFileAtomically(file_path);
 }
 
 }  // namespace rime
